@@ -1,6 +1,6 @@
 \* the verifier with the three missing checks: sound and complete without exception
 \* (design-level evidence for fixes/C05-*.diff; nothing is replayed from this run)
-CONSTANTS NK = 4  NV = 1  MaxVersion = 2  WithDelete = FALSE  WithOverwrite = FALSE
+CONSTANTS NK = 5  NV = 1  MaxVersion = 2  WithDelete = FALSE  WithOverwrite = FALSE
           RecordHist = FALSE  KeepStates = FALSE  CoverDepth = 100
           RejectBothChildren = TRUE  RequireLeftmostInner = TRUE  RejectDuplicateStore = TRUE
 INIT Init
